@@ -129,13 +129,42 @@ func c10Encoder(c *Ctx) {
 		}
 	}
 	c.Ev.Count("encoder_tables_exhaustive", c.Ev.Evals())
+	// Multi-digit and boundary values: every PAIR of rows of length <= 2 over a
+	// value set chosen so that any non-injective row key (digits running into
+	// each other, 7-bit group boundaries, sign handling) makes two different
+	// rows collide; complete.
+	wide := []int32{-1, 0, 1, 2, 8, 10, 11, 12, 18, 21, 22, 101, 110, 63, 64, 127, 128, 255, 256, 8191, 8192, -2, -10, -12, -64, -65, 2147483647}
+	var wrows [][]int32
+	wrows = append(wrows, []int32{})
+	for _, a := range wide {
+		wrows = append(wrows, []int32{a})
+	}
+	for _, a := range wide {
+		for _, b := range wide {
+			wrows = append(wrows, []int32{a, b})
+		}
+	}
+	for _, a := range wrows {
+		for _, b := range wrows {
+			check([]int{0, 1}, [][]int32{a, b})
+		}
+	}
+	c.Ev.Count("encoder_row_pairs_wide_values", len(wrows)*len(wrows))
 	// sampled: 4-6 rows of length <= 3
 	r := c.R.Derive("encoder", 0)
 	for i := 0; i < c.N(30000, 400000); i++ {
 		k := r.Range(4, 6)
 		rs := make([][]int32, k)
 		for j := range rs {
-			rs[j] = rows2[r.Intn(len(rows2))]
+			if r.Chance(1, 2) {
+				rs[j] = rows2[r.Intn(len(rows2))]
+			} else {
+				n := r.Intn(4)
+				rs[j] = make([]int32, n)
+				for q := range rs[j] {
+					rs[j][q] = wide[r.Intn(len(wide))]
+				}
+			}
 		}
 		g := make([]int, k)
 		for j := range g {
